@@ -6,7 +6,7 @@ from .common import bump
 ID = "C09"
 AREA = "c09"
 LEAN_PROPS = "Litep2pVerif.Props.C09"
-THEOREMS = ["held_not_closed", "idle_closed_at", "poll_settles", "ping_no_prolong", "primary_secondary",
+THEOREMS = ["held_not_closed", "idle_closed_at", "idle_run_closed_at", "poll_settles", "ping_no_prolong", "primary_secondary",
             "inbound_negotiation_holds_connection"]
 CONSTS = ["KEEP_ALIVE_TIMEOUT_SECS"]
 CONST_TABLE = [
@@ -23,7 +23,9 @@ MANIFEST = {
             "poll at last_activity + T (never early: the only steps that take it away are its ConnectionClosed and its poll at "
             ">= last_activity + T; never late: a holder always has now <= last_activity + T, strictly once polled), and with no "
             "permit around the loop exits exactly then (for primary and secondary connections alike; 'at t0 + T' is stated for "
-            "the code as it is: the sleep starts at its first poll, which the hypothesis places at the push); poll_settles (after "
+            "the code as it is: the sleep starts at its first poll, which the hypothesis places at the push); idle_run_closed_at "
+            "(along any run of clock advances and polls from a reachable state without permits, ending with everybody polled: the "
+            "loop has exited iff every initial holder's last_activity + T has passed); poll_settles (after "
             "a poll nothing blocks the clock); ping_no_prolong, primary_secondary, and on the "
             "connection task's side (Model/Conn/Permits.lean: the TcpConnection loop with every strong sender explicit) "
             "inbound_negotiation_holds_connection: the permit is taken when an inbound substream is accepted and stays with it "
